@@ -98,5 +98,14 @@ CHECKS = {
    technique='same extraction as C13; obligation = no panic terminal on any path of the literal closures (digit string = unbounded natural N), of encode/insn for any operands, and of the lddw tail',
    text='No path of integer/register literal conversion, sign application, operand construction, encode, insn or the lddw second-slot code ends in a panic, for every literal magnitude, sign and operand value; counterexamples are printed as text and fed to assemble() natively.',
    note='Totality/termination of the combine library on arbitrary characters is outside reach (grammar layer).'),
+ 'C15': dict(level='model_checking', engine='mirsym', design_ref='DESIGN.md 5/C15',
+   technique='symbolic execution of the MIR of disassembler::to_insn_vec (one loop iteration at a symbolic index, per opcode) with format! decoded structurally into token sequences; z3 obligations on fields, names and the operands the documented grammar reads back from the text',
+   text='For each of the 123 supported opcodes with symbolic register nibbles, offset, immediate (and second slot for lddw): no panic; exactly one entry; opc/dst/src/off equal the encoded fields, imm sign-extended (lo|hi<<32 for lddw, second slot skipped); name = the mnemonic; '
+        'the text, tokenised by the documented operand grammar, denotes exactly the fields of the instruction in the assembler\'s operand order (sign and magnitude of offsets, 0x radix).',
+   note='format! rendering to bytes is replaced by the decoded (template, arguments) pair; unknown template encodings make the run inconclusive. Trusted: rustc MIR, z3, the documented grammar.'),
+ 'C16': dict(level='model_checking', engine='mirsym', design_ref='DESIGN.md 5/C16',
+   technique='composition of the token sequences extracted from disassembler::to_insn_vec (C15) with the encoder model that C13 proves equivalent to assembler::encode, through the documented operand grammar; z3',
+   text='For every assembler-expressible opcode and all field values: whenever the printed text is accepted, the assembled instruction has the same opcode and the same used fields (canonical form); with unused fields zero and a non-negative immediate (any 64-bit value for lddw) the text is accepted and yields the original bytes.',
+   note='The grammar layer (combine) is an assumption here: the one place where a model stands in for code. xadd and tail_call are not expressible by the assembler (outside the first clause).'),
 }
 NOT_APPLICABLE = {}
